@@ -1,3 +1,4 @@
+import Agd.Tie.TrC08
 import Agd.Lemmas.Normalize
 import Agd.Tie.C08
 /-!
@@ -726,3 +727,6 @@ example : dcAccepts twoQuestions = false ∧ dcAccepts goodQuery = true := by de
 #print axioms bigResp_contract
 
 end Agd.Normalize
+#print axioms Agd.Tie.TrC08.translation_complete
+#print axioms Agd.Tie.TrC08.maxDNSSize_tr
+#print axioms Agd.Tie.TrC08.maxDNSSize_formula
